@@ -500,11 +500,11 @@ def _propagate_copies(fn: ast.AST, params: set[str]) -> None:
                     """the name is a parameter of an enclosing lambda: another variable"""
                     return any(isinstance(a, ast.Lambda) and any(p_.arg == name for p_ in [*a.args.posonlyargs, *a.args.args, *a.args.kwonlyargs]) for a in ancestors(n))
 
-                if any(n.id == y and shadowed(n, y) for n in names):
-                    continue  # renaming into the lambda's own name would capture
                 reads = [n for n in names if n.id == x and isinstance(n.ctx, ast.Load) and not shadowed(n, x)]
                 if not reads or any(pos[id(n)] < here for n in reads):
                     continue
+                if any(shadowed(n, y) for n in reads):
+                    continue  # a read inside a lambda with a parameter called y: renaming would capture
                 if any(n.id == y and isinstance(n.ctx, (ast.Store, ast.Del)) and pos[id(n)] > here for n in names):
                     continue
                 # every read sits in the block of the statement (or deeper), after it; not inside a nested function
@@ -847,6 +847,17 @@ def _local_objects(repo: Repo, view: FuncInfo) -> dict:
     return out
 
 
+def _method_of(repo: Repo, ci, name: str) -> FuncInfo | None:
+    """The method a call on an instance of `ci` runs (own or inherited from another helper class)."""
+    try:
+        m = repo.lookup_method(ci, name)
+    except Exception:  # noqa: BLE001
+        m = ci.methods.get(name)
+    if m is not None and m.cls is not None and not _helper_class(m.cls):
+        return None
+    return m
+
+
 def _class_of_call(repo: Repo, view: FuncInfo, call: ast.Call):
     if not isinstance(call.func, (ast.Name, ast.Attribute)):
         return None
@@ -859,18 +870,91 @@ def _class_of_call(repo: Repo, view: FuncInfo, call: ast.Call):
     return ci
 
 
+def _next_as_generator(ci) -> FuncInfo | None:
+    """The iterator protocol written by hand - `__iter__` returns self, `__next__` is `while <state>: .. return e` followed by
+    `raise StopIteration` - as the generator it is equivalent to when `__next__` keeps no local state between calls: every
+    `return e` ends an iteration of the while loop, so the next call re-enters the loop exactly where `yield e` would resume it."""
+    cached = ci.__dict__.get("_next_generator", 0)
+    if cached != 0:
+        return cached
+    ci.__dict__["_next_generator"] = None
+    it_, nx = ci.methods.get("__iter__"), ci.methods.get("__next__")
+    if it_ is None or nx is None or isinstance(nx.node, ast.Lambda):
+        return None
+    body_it = [s_ for s_ in it_.node.body if not (isinstance(s_, ast.Expr) and isinstance(s_.value, ast.Constant))]
+    self_it = it_.param_names[0] if it_.param_names else None
+    if not (len(body_it) == 1 and isinstance(body_it[0], ast.Return) and isinstance(body_it[0].value, ast.Name) and body_it[0].value.id == self_it):
+        return None
+    body = [s_ for s_ in nx.node.body if not (isinstance(s_, ast.Expr) and isinstance(s_.value, ast.Constant))]
+    if not (len(body) == 2 and isinstance(body[0], ast.While) and not body[0].orelse and isinstance(body[1], ast.Raise) and body[1].exc is not None and norm(body[1].exc).split("(")[0] == "StopIteration"):
+        return None
+    if len(nx.param_names) != 1 or nx.node.args.vararg or nx.node.args.kwarg:
+        return None
+    loop = body[0]
+    # returns with a value, each the last statement executed in an iteration of the loop (not inside an inner loop); nothing else leaves
+    ok = True
+
+    def check(stmts: list[ast.stmt], tail: bool, inner: bool) -> None:
+        nonlocal ok
+        for i, st in enumerate(stmts):
+            last = tail and i == len(stmts) - 1
+            if isinstance(st, ast.Return):
+                if st.value is None or inner or not last:
+                    ok = False
+            elif isinstance(st, ast.If):
+                check(st.body, last, inner)
+                check(st.orelse, last, inner)
+            elif isinstance(st, (ast.For, ast.While)):
+                check(st.body, False, True)
+                if st.orelse:
+                    ok = False
+            elif isinstance(st, (ast.Break, ast.Raise)) and not inner:
+                ok = False
+            elif isinstance(st, (ast.Try, ast.With, ast.FunctionDef, ast.AsyncFunctionDef, ast.ClassDef, ast.Global, ast.Nonlocal)):
+                ok = False
+            elif any(isinstance(n, (ast.Yield, ast.YieldFrom)) for n in ast.walk(st)):
+                ok = False
+
+    check(loop.body, True, False)
+    if not ok or not any(isinstance(n, ast.Return) for n in ast.walk(loop)):
+        return None
+    node = _clone(nx.node)
+
+    class R(ast.NodeTransformer):
+        def visit_Return(self, n: ast.Return):  # noqa: N802
+            return ast.copy_location(ast.Expr(value=ast.copy_location(ast.Yield(value=n.value), n)), n)
+
+        def visit_FunctionDef(self, n):  # noqa: N802
+            if n is node:
+                self.generic_visit(n)
+            return n
+
+        def visit_Lambda(self, n):  # noqa: N802
+            return n
+
+    node = R().visit(node)
+    node.body = [s_ for s_ in node.body if not isinstance(s_, ast.Raise)]
+    ast.fix_missing_locations(node)
+    set_parents(node)
+    gen = FuncInfo(name=nx.name, qualname=nx.qualname, node=node, module=nx.module, cls=nx.cls, decorators=list(nx.decorators), outer=nx.outer)
+    ci.__dict__["_next_generator"] = gen
+    return gen
+
+
 def _generator_target(repo: Repo, view: FuncInfo, it: ast.AST, objects: dict):
     """(generator FuncInfo, call whose arguments bind its parameters) for an iterated expression: `gen(..)` of a module-level generator
     helper, a local walk object `x` whose class has a generator `__iter__`, `iter(x)`, or a generator method `x.edges(..)`."""
     if isinstance(it, ast.Call) and isinstance(it.func, ast.Name) and it.func.id == "iter" and len(it.args) == 1 and not it.keywords:
         it = it.args[0]
     if isinstance(it, ast.Name) and it.id in objects:
-        f = objects[it.id].methods.get("__iter__")
+        f = _method_of(repo, objects[it.id], "__iter__")
+        if f is not None and not _is_generator(f):
+            f = _next_as_generator(objects[it.id])
         if f is not None and _is_generator(f) and not (f.node.args.vararg or f.node.args.kwarg):
             return f, ast.copy_location(ast.Call(func=ast.Attribute(value=it, attr="__iter__", ctx=ast.Load()), args=[ast.copy_location(ast.Name(id=it.id, ctx=ast.Load()), it)], keywords=[]), it)
         return None
     if isinstance(it, ast.Call) and isinstance(it.func, ast.Attribute) and isinstance(it.func.value, ast.Name) and it.func.value.id in objects:
-        f = objects[it.func.value.id].methods.get(it.func.attr)
+        f = _method_of(repo, objects[it.func.value.id], it.func.attr)
         if f is not None and _is_generator(f) and not f.is_staticmethod and not f.is_classmethod and not (f.node.args.vararg or f.node.args.kwarg):
             recv = ast.copy_location(ast.Name(id=it.func.value.id, ctx=ast.Load()), it)
             return f, ast.copy_location(ast.Call(func=it.func, args=[recv, *it.args], keywords=list(it.keywords)), it)
@@ -972,7 +1056,7 @@ def _inline_object_methods(repo: Repo, view: FuncInfo) -> bool:
             self.generic_visit(n)
             if not (isinstance(n.func, ast.Attribute) and isinstance(n.func.value, ast.Name) and n.func.value.id in objects):
                 return n
-            f = objects[n.func.value.id].methods.get(n.func.attr)
+            f = _method_of(repo, objects[n.func.value.id], n.func.attr)
             if not plain(f):
                 return n
             body = [s_ for s_ in f.node.body if not (isinstance(s_, ast.Expr) and isinstance(s_.value, ast.Constant))]
@@ -1006,7 +1090,7 @@ def _inline_object_methods(repo: Repo, view: FuncInfo) -> bool:
                     h.body = block(h.body)
             # x.m(a) as a statement
             if isinstance(st, ast.Expr) and isinstance(st.value, ast.Call) and isinstance(st.value.func, ast.Attribute) and isinstance(st.value.func.value, ast.Name) and st.value.func.value.id in objects:
-                f = objects[st.value.func.value.id].methods.get(st.value.func.attr)
+                f = _method_of(repo, objects[st.value.func.value.id], st.value.func.attr)
                 if plain(f):
                     got = expand_stmt(f, st.value.func.value.id, st.value, st)
                     if got is not None:
@@ -1018,7 +1102,7 @@ def _inline_object_methods(repo: Repo, view: FuncInfo) -> bool:
             tgt = st.targets[0] if isinstance(st, ast.Assign) and len(st.targets) == 1 else getattr(st, "target", None) if isinstance(st, ast.AnnAssign) else None
             if isinstance(tgt, ast.Name) and tgt.id in objects and isinstance(getattr(st, "value", None), ast.Call) and _class_of_call(repo, view, st.value) is objects[tgt.id]:
                 ci = objects[tgt.id]
-                init = ci.methods.get("__init__")
+                init = _method_of(repo, ci, "__init__")
                 got = None
                 if init is not None and plain(init):
                     got = expand_stmt(init, tgt.id, st.value, st)
@@ -1036,6 +1120,218 @@ def _inline_object_methods(repo: Repo, view: FuncInfo) -> bool:
     view.node.body = block(view.node.body)
     tr = ExprMethods()
     view.node.body = [tr.visit(s_) for s_ in view.node.body]
+    return changed
+
+
+def _inline_local_callables(view: FuncInfo) -> bool:
+    """Callables that live inside the function itself - the callback protocol (`_walk(graph, start, on_import=record)` once `_walk`
+    is substituted leaves `record(node, child)` behind):
+
+      * a nested `def g(a, b): ..` bound once: `g(x, y)` as a statement -> its body; `v = g(x, y)` with one trailing `return e` -> body, `v = e`
+      * `g = lambda a, b: e` bound once: `g(x, y)` -> e
+      * `g = obj.method` (a bound method of a local, e.g. `submodules.add`) bound once: `g(x)` -> `obj.method(x)`
+
+    A definition none of whose uses is left is dropped."""
+    fn = view.node
+    set_parents(fn)
+    changed = False
+    taken = {n.id for n in ast.walk(fn) if isinstance(n, ast.Name)}
+    stores: dict[str, int] = {}
+    for n in ast.walk(fn):
+        if isinstance(n, ast.Name) and isinstance(n.ctx, (ast.Store, ast.Del)):
+            stores[n.id] = stores.get(n.id, 0) + 1
+        elif isinstance(n, (ast.FunctionDef, ast.AsyncFunctionDef, ast.ClassDef)) and n is not fn:
+            stores[n.name] = stores.get(n.name, 0) + 1
+    params = set(view.param_names)
+    defs: dict[str, ast.AST] = {}
+    for n in ast.walk(fn):
+        if isinstance(n, ast.FunctionDef) and n is not fn and stores.get(n.name) == 1 and n.name not in params and not n.decorator_list:
+            a = n.args
+            if a.vararg or a.kwarg or a.kwonlyargs or any(isinstance(x, (ast.Yield, ast.YieldFrom, ast.Await, ast.Global, ast.FunctionDef, ast.AsyncFunctionDef, ast.ClassDef)) for s_ in n.body for x in ast.walk(s_)):
+                continue
+            if any(isinstance(c, ast.Call) and isinstance(c.func, ast.Name) and c.func.id == n.name for c in ast.walk(n)):
+                continue  # recursive
+            defs[n.name] = n
+        elif isinstance(n, (ast.Assign, ast.AnnAssign)) and n.value is not None:
+            tgt = n.targets[0] if isinstance(n, ast.Assign) and len(n.targets) == 1 else getattr(n, "target", None)
+            if not (isinstance(tgt, ast.Name) and stores.get(tgt.id) == 1 and tgt.id not in params):
+                continue
+            if isinstance(n.value, ast.Lambda) and not (n.value.args.vararg or n.value.args.kwarg or n.value.args.kwonlyargs):
+                defs[tgt.id] = n.value
+            elif isinstance(n.value, ast.Attribute) and isinstance(n.value.value, ast.Name) and n.value.attr in (_GROW | _SHRINK | {"__contains__"}) and stores.get(n.value.value.id, 0) <= 1:
+                defs[tgt.id] = n.value  # a bound method of a local collection
+    if not defs:
+        return False
+
+    def bind(a: ast.arguments, call: ast.Call) -> dict[str, ast.expr] | None:
+        pos = [p_.arg for p_ in [*a.posonlyargs, *a.args]]
+        if any(isinstance(x, ast.Starred) for x in call.args) or any(k.arg is None for k in call.keywords) or len(call.args) > len(pos):
+            return None
+        b: dict[str, ast.expr] = dict(zip(pos, call.args))
+        for k in call.keywords:
+            if k.arg not in pos:
+                return None
+            b[k.arg] = k.value
+        for p_, d in zip(pos[len(pos) - len(a.defaults):], a.defaults):
+            if isinstance(d, ast.Constant):
+                b.setdefault(p_, d)
+        return b if set(b) == set(pos) else None
+
+    def body_of(g: ast.FunctionDef, call: ast.Call, at: ast.stmt, want_value: bool):
+        b = bind(g.args, call)
+        if b is None:
+            return None
+        src = [s_ for s_ in g.body if not (isinstance(s_, ast.Expr) and isinstance(s_.value, ast.Constant)) and not isinstance(s_, (ast.Nonlocal, ast.Pass))]
+        rets = [x for s_ in src for x in ast.walk(s_) if isinstance(x, ast.Return)]
+        tail = src[-1] if src and isinstance(src[-1], ast.Return) else None
+        if any(r is not tail for r in rets):
+            return None
+        if want_value and (tail is None or tail.value is None):
+            return None
+        if not want_value and tail is not None and tail.value is not None and not isinstance(tail.value, (ast.Constant, ast.Name)):
+            return None
+        body = [_clone(s_) for s_ in src if s_ is not tail]
+        value = _clone(tail.value) if (tail is not None and tail.value is not None) else None
+        nonlocals = {nm for s_ in g.body if isinstance(s_, ast.Nonlocal) for nm in s_.names}
+        pos = list(b)
+        stored = {n.id for s_ in body for n in ast.walk(s_) if isinstance(n, ast.Name) and isinstance(n.ctx, ast.Store)} - nonlocals
+        prefix: list[ast.stmt] = []
+        ren: dict[str, str] = {}
+        for p_ in pos:
+            val = b[p_]
+            if isinstance(val, ast.Name) and p_ not in stored:
+                ren[p_] = val.id
+            else:
+                new = p_ if p_ not in taken else f"{p_}__{g.name.strip('_')}"
+                while new in taken and new != p_:
+                    new += "_"
+                taken.add(new)
+                ren[p_] = new
+                prefix.append(ast.copy_location(ast.Assign(targets=[ast.Name(id=new, ctx=ast.Store())], value=val), at))
+        for l_ in sorted(stored - set(pos)):
+            if l_ in taken:
+                new = f"{l_}__{g.name.strip('_')}"
+                while new in taken:
+                    new += "_"
+                taken.add(new)
+                ren[l_] = new
+            else:
+                taken.add(l_)
+
+        class Ren(ast.NodeTransformer):
+            def visit_Name(self, m_: ast.Name):  # noqa: N802
+                if m_.id in ren:
+                    m_.id = ren[m_.id]
+                return m_
+
+            def visit_Lambda(self, m_: ast.Lambda):  # noqa: N802
+                own = {p_.arg for p_ in [*m_.args.posonlyargs, *m_.args.args, *m_.args.kwonlyargs]}
+                if own & set(ren):
+                    return m_  # the lambda's own parameters shadow
+                self.generic_visit(m_)
+                return m_
+
+        r = Ren()
+        body = [r.visit(s_) for s_ in body]
+        if value is not None:
+            value = r.visit(value)
+        return prefix + body, value
+
+    simple = (ast.Name, ast.Constant)
+
+    class Exprs(ast.NodeTransformer):
+        def visit_Lambda(self, n):  # noqa: N802
+            return n
+
+        def visit_FunctionDef(self, n):  # noqa: N802
+            if n is fn:
+                self.generic_visit(n)
+            return n
+
+        def visit_Call(self, n: ast.Call):  # noqa: N802
+            nonlocal changed
+            self.generic_visit(n)
+            if not (isinstance(n.func, ast.Name) and n.func.id in defs):
+                return n
+            d = defs[n.func.id]
+            if isinstance(d, ast.Attribute):
+                changed = True
+                n.func = ast.copy_location(_clone(d), n.func)
+                return n
+            if isinstance(d, ast.Lambda):
+                b = bind(d.args, n)
+                if b is None or not all(isinstance(x, simple) or (isinstance(x, ast.Attribute) and isinstance(x.value, ast.Name)) for x in b.values()):
+                    return n
+                expr = _clone(d.body)
+
+                class Sub(ast.NodeTransformer):
+                    def visit_Name(self, m_: ast.Name):  # noqa: N802
+                        if m_.id in b and isinstance(m_.ctx, ast.Load):
+                            return _clone(b[m_.id])
+                        return m_
+
+                changed = True
+                return Sub().visit(expr)
+            return n
+
+    def block(stmts: list[ast.stmt]) -> list[ast.stmt]:
+        nonlocal changed
+        out: list[ast.stmt] = []
+        for st in stmts:
+            if isinstance(st, (ast.FunctionDef, ast.AsyncFunctionDef, ast.ClassDef)):
+                out.append(st)
+                continue
+            for fld in ("body", "orelse", "finalbody"):
+                blk = getattr(st, fld, None)
+                if isinstance(blk, list) and blk and isinstance(blk[0], ast.stmt):
+                    setattr(st, fld, block(blk) or [ast.copy_location(ast.Pass(), st)])
+            if isinstance(st, ast.Try):
+                for h in st.handlers:
+                    h.body = block(h.body) or [ast.copy_location(ast.Pass(), st)]
+            call = st.value if isinstance(st, (ast.Expr, ast.Assign, ast.AnnAssign)) and isinstance(getattr(st, "value", None), ast.Call) else None
+            if call is not None and isinstance(call.func, ast.Name) and isinstance(defs.get(call.func.id), ast.FunctionDef):
+                got = body_of(defs[call.func.id], call, st, want_value=not isinstance(st, ast.Expr))
+                if got is not None:
+                    stmts_, value = got
+                    out += stmts_
+                    if not isinstance(st, ast.Expr):
+                        st.value = value
+                        out.append(st)
+                    changed = True
+                    continue
+            out.append(st)
+        return out
+
+    fn.body = block(fn.body)
+    tr = Exprs()
+    fn.body = [tr.visit(s_) for s_ in fn.body]
+    # statements that are now a bare constant / name (`None` left by `lambda ..: None`)
+    def prune(stmts: list[ast.stmt]) -> list[ast.stmt]:
+        out: list[ast.stmt] = []
+        for st in stmts:
+            for fld in ("body", "orelse", "finalbody"):
+                blk = getattr(st, fld, None)
+                if isinstance(blk, list) and blk and isinstance(blk[0], ast.stmt) and not isinstance(st, (ast.FunctionDef, ast.AsyncFunctionDef, ast.ClassDef)):
+                    setattr(st, fld, prune(blk) or ([ast.copy_location(ast.Pass(), st)] if fld == "body" else []))
+            if isinstance(st, ast.Expr) and isinstance(st.value, (ast.Constant, ast.Name)) and not (isinstance(st.value, ast.Constant) and isinstance(st.value.value, str)):
+                continue
+            out.append(st)
+        return out
+
+    fn.body = prune(fn.body)
+    # definitions nobody refers to any more
+    set_parents(fn)
+    for name, d in defs.items():
+        if any(isinstance(n, ast.Name) and n.id == name and isinstance(n.ctx, ast.Load) for n in ast.walk(fn)):
+            continue
+        holder = d if isinstance(d, ast.FunctionDef) else stmt_of(d)
+        for blk in _blocks(fn):
+            if any(x is holder for x in blk):
+                blk.remove(holder)
+                if not blk:
+                    blk.append(ast.copy_location(ast.Pass(), holder))
+                changed = True
+                break
     return changed
 
 
@@ -1698,6 +1994,7 @@ def search_view(repo: Repo, fi: FuncInfo) -> FuncInfo:
         v0.__dict__["objects"] = objects_seen
         changed = _hoist_helper_calls(repo, v0)
         changed = _inline_object_methods(repo, v0) or changed
+        changed = _inline_local_callables(v0) or changed
         changed = _recursion_to_worklists(repo, v0) or changed
         changed = _generator_comprehensions_to_loops(repo, v0) or changed
         changed = _inline_generator_loops(repo, v0) or changed
